@@ -76,6 +76,18 @@ static bool alias_indexed(P& p, const std::vector<std::string>& t, std::size_t a
     return what != "has2";
 }
 
+// user predicates of the `removeif` operation (url_search_params::remove_if with a caller's predicate)
+struct user_pred {
+    std::string kind; std::size_t k;
+    bool operator()(const upa::url_search_params::value_type& x) const {
+        if (kind == "vlen") return x.second.size() == k;
+        if (kind == "nlenle") return x.first.size() <= k;
+        if (kind == "vfirst") return !x.second.empty() && static_cast<unsigned char>(x.second.front()) == k;
+        if (kind == "nlast") return !x.first.empty() && static_cast<unsigned char>(x.first.back()) == k;
+        return false;
+    }
+};
+
 static std::vector<uint32_t> parse_units(const std::string& s) {
     std::vector<uint32_t> v;
     if (s == "-") return v;
@@ -784,6 +796,7 @@ static std::string exec(const std::vector<std::string>& t, std::string& preds) {
         else if (o == "del2") with_arg2(E(0), A(0), [&](auto&& n) { return with_arg2(E(1), A(1), [&](auto&& v) { p.del(n, v); return true; }); });
         else if (o == "remove") r = std::to_string(with_arg(E(0), A(0), [&](auto&& n) { return static_cast<unsigned long>(p.remove(n)); }));
         else if (o == "remove2") r = std::to_string(with_arg2(E(0), A(0), [&](auto&& n) { return with_arg2(E(1), A(1), [&](auto&& v) { return static_cast<unsigned long>(p.remove(n, v)); }); }));
+        else if (o == "removeif") r = std::to_string(static_cast<unsigned long>(p.remove_if(user_pred{t.size() > 3 ? t[3] : std::string("-"), static_cast<std::size_t>(std::strtoul(t.size() > 4 ? t[4].c_str() : "0", nullptr, 10))})));
         else if (o == "has") r = with_arg(E(0), A(0), [&](auto&& n) { return p.has(n); }) ? "1" : "0";
         else if (o == "has2") r = with_arg2(E(0), A(0), [&](auto&& n) { return with_arg2(E(1), A(1), [&](auto&& v) { return p.has(n, v); }); }) ? "1" : "0";
         else if (o == "getv") r = opt_bytes(with_arg(E(0), A(0), [&](auto&& n) { return p.get(n); }));
